@@ -1,13 +1,79 @@
 """Library contracts added per property (ASSUMED, trusted base).  Every module here defines
 ``register(lib)`` which adds entries to ``lib.np`` (numpy names, e.g. lib.np["histogram"]), ``lib.mods[<module>]``
 (other modules: 'math', 'pandas', ...), or ``lib.extern['pkg.mod.name']`` (targets of ``from pkg.mod import name``).
-Loaded by pyvc.lib.Lib._build in sorted order."""
+
+Loaded by pyvc.lib.Lib._build.  The table is built **per property** (`pyvc.vc.lib_for(prop)`, chosen by `unit.prop`):
+  * the modules of the *other* properties are loaded first, in sorted order, and may only ADD names (a name that the base
+    table or an earlier module already defines is left as it is) and may not install engine hooks;
+  * the property's own module is loaded last and may override names and install hooks.
+So the contract of a library function that a unit sees is the base contract, or the one its own property states; a contract
+written for another property never silently replaces it."""
 import importlib
 import pkgutil
 
+# global single-element cells through which a libext module may replace an engine default (module, attribute)
+HOOK_CELLS = [("pyvc.arr", "SYMBOLIC_MINMAX")]
 
-def load_all(lib):
-    for m in sorted(pkgutil.iter_modules(__path__), key=lambda x: x.name):
+
+def _cells():
+    out = {}
+    for modname, attr in HOOK_CELLS:
+        mod = importlib.import_module(modname)
+        if hasattr(mod, attr):
+            out[f"{modname}.{attr}"] = getattr(mod, attr)
+    return out
+
+
+def set_hooks(hooks):
+    for name, cell in _cells().items():
+        cell[0] = hooks.get(name)
+
+
+def _dict_attrs(lib):
+    return {k: v for k, v in vars(lib).items() if isinstance(v, dict) and k != "hooks"}
+
+
+def _snapshot(lib):
+    snap = {}
+    for k, d in _dict_attrs(lib).items():
+        snap[k] = {kk: (dict(vv) if isinstance(vv, dict) else vv) for kk, vv in d.items()}
+    return snap
+
+
+def _keep_additions_only(lib, snap):
+    for k, d in _dict_attrs(lib).items():
+        old = snap.get(k)
+        if old is None:
+            continue
+        for kk in list(d):
+            if kk in old:
+                if isinstance(d[kk], dict) and isinstance(old[kk], dict):
+                    sub = d[kk]
+                    for k3 in list(sub):
+                        if k3 in old[kk]:
+                            sub[k3] = old[kk][k3]
+                else:
+                    d[kk] = old[kk]
+
+
+def load_all(lib, prop=None):
+    mods = sorted(pkgutil.iter_modules(__path__), key=lambda x: x.name)
+    cells = _cells()
+    for c in cells.values():
+        c[0] = None
+    own = [m for m in mods if m.name == prop]
+    for m in [m for m in mods if m.name != prop] + own:
         mod = importlib.import_module(f"{__name__}.{m.name}")
-        if hasattr(mod, "register"):
+        if not hasattr(mod, "register"):
+            continue
+        if m.name == prop:
             mod.register(lib)
+            lib.hooks = {name: c[0] for name, c in cells.items() if c[0] is not None}
+        else:
+            snap = _snapshot(lib)
+            mod.register(lib)
+            _keep_additions_only(lib, snap)
+            for c in cells.values():
+                c[0] = None
+    for c in cells.values():
+        c[0] = None
